@@ -27,7 +27,7 @@ LEVEL = "exploration"
 # ------------------------------------------------------------------------------------------------
 
 class OpStat:
-    __slots__ = ("op", "level", "evals", "bad", "exc", "first_bad", "first_exc", "outcomes", "note")
+    __slots__ = ("op", "level", "evals", "bad", "exc", "first_bad", "first_exc", "outcomes", "note", "classes")
 
     def __init__(self, op, level):
         self.op = op
@@ -39,6 +39,17 @@ class OpStat:
         self.first_exc = None  # (a, b, text)
         self.outcomes = set()
         self.note = None
+        self.classes = {}  # input class -> [inputs in the class, failing inputs, first failing (a, b, text)]
+
+    def tally(self, cls, a, b, msg):
+        c = self.classes.get(cls)
+        if c is None:
+            c = self.classes[cls] = [0, 0, None]
+        c[0] += 1
+        if msg is not None:
+            c[1] += 1
+            if c[2] is None:
+                c[2] = (a, b, msg)
 
     def record(self, a, b, status, payload):
         self.evals += 1
@@ -46,9 +57,11 @@ class OpStat:
             self.exc += 1
             if self.first_exc is None:
                 self.first_exc = (a, b, payload)
+            self.tally("rejected", a, b, payload)
             return
         self.outcomes.add(payload)
         msg = g.check_result(self.op, a, b, payload)
+        self.tally(g.input_class(self.op, a, b), a, b, msg)
         if msg is not None:
             self.bad += 1
             if self.first_bad is None:
@@ -57,7 +70,7 @@ class OpStat:
     def export(self):
         return {"op": self.op, "level": self.level, "evals": self.evals, "bad": self.bad, "exc": self.exc,
                 "first_bad": self.first_bad, "first_exc": self.first_exc, "distinct": len(self.outcomes),
-                "must_accept": g.must_accept(self.op), "note": self.note}
+                "must_accept": g.must_accept(self.op), "note": self.note, "classes": self.classes}
 
 
 def input_space(op):
@@ -292,7 +305,7 @@ class SeqStat(OpStat):
     def export(self):
         return {"op": self.op, "level": self.level, "evals": self.evals, "bad": self.bad, "exc": self.exc,
                 "first_bad": self.first_bad, "first_exc": self.first_exc, "distinct": len(self.outcomes),
-                "must_accept": seq_must_accept(self.op[4]), "note": self.note}
+                "must_accept": seq_must_accept(self.op[4]), "note": self.note, "classes": self.classes}
 
     def record_seq(self, a, b, status, payload, exp=None):
         self.evals += 1
@@ -300,9 +313,11 @@ class SeqStat(OpStat):
             self.exc += 1
             if self.first_exc is None:
                 self.first_exc = (a, b, payload)
+            self.tally("rejected", a, b, payload)
             return
         self.outcomes.add(tuple(sorted(payload.items())))
         msg = seq_compare(self.op[1], self.op[2], exp, payload)
+        self.tally("any", a, b, msg)
         if msg is not None:
             self.bad += 1
             if self.first_bad is None:
@@ -573,6 +588,25 @@ def finding_key(level, op):
     return f"{level}/{op_key(op)}"
 
 
+def classify_classes(s):
+    """-> list of (input class, verdict, text, first failing (a, b), inputs, failing) for one exported OpStat:
+    one entry per input class of the case; verdict in ok / violation / rejected"""
+    out = []
+    for cls, (n_in, n_bad, first) in sorted(s["classes"].items()):
+        if cls == "rejected":
+            if s["must_accept"]:
+                out.append((cls, "violation", f"rejected although the property requires a result: {first[2]} "
+                            f"[a={first[0]:#b} b={first[1]:#b}; {n_bad} of {s['evals']} inputs of the case]", first[:2], n_in, n_bad))
+            else:
+                out.append((cls, "rejected", None, None, n_in, n_bad))
+        elif n_bad:
+            out.append((cls, "violation", f"{first[2]} [a={first[0]:#b} b={first[1]:#b}; {n_bad} of {n_in} inputs of class "
+                        f"{cls} wrong]", first[:2], n_in, n_bad))
+        else:
+            out.append((cls, "ok", None, None, n_in, 0))
+    return out
+
+
 def classify(s):
     """-> (verdict, text) for one exported OpStat; verdict in ok / violation / rejected"""
     if s["bad"]:
@@ -616,6 +650,10 @@ def main(run: Run):
     only = getattr(run, "only", None)
     sampled = set()
     known_instances = {}
+    # operation types that have listed findings (their non-failing classes are matched too, see below)
+    tokens = {"resize": ("/resize/",), "arith": ("/add/", "/sub/", "/mul/"), "eq": ("/eq/",), "ctor_f": ("/ctor/",),
+              "ctor_v": ("/ctor/",), "ctor_c": ("/ctor/",), "eqc": ("/eqc/",), "seq": ("/seq/",)}
+    known_op_types = {t for t, toks in tokens.items() if any(tok in k.get("key", "") for k in run.known for tok in toks)}
     warm_up()
     for kind_, res in pmap(work, tasks, chunksize=4, seed=run.seed):
         if kind_ != "ok":
@@ -646,20 +684,38 @@ def main(run: Run):
             if verdict == "ok" and s["distinct"] >= 2 and fam not in sampled and len(sampled) < 8:
                 sampled.add(fam)
                 run.sample({"level": lvl, "op": op_key(op), "inputs": s["evals"], "distinct_results": s["distinct"]})
-            if verdict == "violation":
-                fb = s["first_bad"] or s["first_exc"]
-                key = finding_key(lvl, op)
-                # one root cause hits many format pairs: instances of a listed finding are counted and the
-                # KNOWN-FINDING line is printed once per listed entry (first instance), not once per key
+            # a failing input is identified by (case, input class): one violation per pair.  A listed finding names
+            # its input class, so inputs of the same case that fail outside that class are reported.
+            check_known = op[0] in known_op_types
+            for cls, cverdict, ctext, first, n_in, n_bad in classify_classes(s):
+                run.count("input_classes")
+                if cverdict != "violation" and not check_known:
+                    continue
+                key = f"{finding_key(lvl, op)}/in={cls}"
                 entry = run._known_match(key)
+                if cverdict != "violation":
+                    if entry is not None and cverdict == "ok":
+                        # the other direction: every input of a listed class is expected to fail
+                        run.count("known_finding_class_not_failing")
+                        if run.counters["known_finding_class_not_failing"] <= 10:
+                            run.note(f"listed finding no longer fails: {key} ({n_in} inputs correct)")
+                            print(f"NOTE property=C19 listed finding no longer fails: {key} ({n_in} inputs correct)", flush=True)
+                    continue
+                run.count("violating_input_classes")
                 if entry is not None:
                     pat = entry.get("key", key)
                     known_instances[pat] = known_instances.get(pat, 0) + 1
                     run.count("known_finding_instances")
+                    if n_bad < n_in:
+                        run.count("known_finding_class_partly_failing")
+                        if run.counters["known_finding_class_partly_failing"] <= 10:
+                            run.note(f"listed finding fails for only {n_bad} of {n_in} inputs of its class: {key}")
+                            print(f"NOTE property=C19 listed finding fails for only {n_bad} of {n_in} inputs of its class: {key}", flush=True)
                     if known_instances[pat] > 1:
                         continue
-                run.violation(key, f"{lvl} {op_key(op)}: {text}",
-                              {"level": lvl, "op": list(op), "a": fb[0], "b": fb[1], "generator": "c19_fixed"})
+                run.violation(key, f"{lvl} {op_key(op)} in={cls}: {ctext}",
+                              {"level": lvl, "op": list(op), "a": first[0], "b": first[1], "input_class": cls,
+                               "generator": "c19_fixed"})
     if known_instances:
         run.coverage_extra["known_finding_instances_by_entry"] = dict(sorted(known_instances.items()))
     # vacuity guards
